@@ -21,6 +21,9 @@ REQUIRED_THEOREMS = [
     "TapkeeVerif.QuadTree.children_masses_add",
     "TapkeeVerif.QuadTree.mass_witness",
     "TapkeeVerif.QuadTree.forces_theta0_exact",
+    "TapkeeVerif.QuadTree.forces_theta0_coincident",
+    "TapkeeVerif.QuadTree.self_skip_total",
+    "TapkeeVerif.QuadTree.forces_theta0_twins_witness",
     "TapkeeVerif.QuadTree.forces_exact_below_threshold",
     "TapkeeVerif.QuadTree.force_error_bound",
     "TapkeeVerif.QuadTree.order_independent_observables",
